@@ -227,8 +227,10 @@ fn get_intervals<'a>(context: &CheckerContext, tour: &'a Tour) -> Vec<Vec<(usize
         .fold(Vec::<(usize, usize)>::default(), |mut acc, (idx, (_, to))| {
             let last_idx = legs.len() - 1;
             if is_reload_stop(context, to) || *idx == last_idx {
-                let start_idx = acc.last().map_or(0_usize, |item| item.1 + 2);
-                let end_idx = if *idx == last_idx { last_idx } else { *idx - 1 };
+                // NOTE: a half-open range of legs, a leg to the reload stop is not part of it and the range
+                // can be empty when reload is visited right after departure
+                let start_idx = acc.last().map_or(0_usize, |item| item.1 + 1);
+                let end_idx = if *idx == last_idx { last_idx + 1 } else { *idx };
 
                 acc.push((start_idx, end_idx));
             }
@@ -237,7 +239,7 @@ fn get_intervals<'a>(context: &CheckerContext, tour: &'a Tour) -> Vec<Vec<(usize
         })
         .into_iter()
         .map(|(start_idx, end_idx)| {
-            legs.iter().cloned().skip(start_idx).take(end_idx - start_idx + 1).collect::<Vec<_>>()
+            legs.iter().cloned().skip(start_idx).take(end_idx.saturating_sub(start_idx)).collect::<Vec<_>>()
         })
         .collect()
 }
